@@ -18,6 +18,7 @@ type Op struct {
 	K        string `json:"k"`                   // send | gate | release | poison | stop | sync | respawn
 	ID       int    `json:"id,omitempty"`        // message id (send), assigned by Normalize
 	Panic    bool   `json:"panic,omitempty"`     // (send) Receive panics on this message
+	Internal bool   `json:"internal,omitempty"`  // (send+panic) the panic value is an *actor.InternalError: restart without touching the budget
 	GateNext bool   `json:"gate_next,omitempty"` // (send+panic) the next incarnation blocks in Started until `release`
 	From     int    `json:"from,omitempty"`      // (send) 0 = no sender, 1..3 = sender pool
 	N        int    `json:"n,omitempty"`         // (send) repeat count > 1: a burst of plain messages
@@ -68,6 +69,7 @@ type item struct {
 	pill     *Pill
 	id       int
 	panics   bool
+	internal bool
 	gateNext bool
 	from     int
 	gate     bool
@@ -108,19 +110,20 @@ type Sim struct {
 	cur       []item
 	draining  *Pill
 
-	Exp           []Exp
-	Restarted     []int // Restarts field of each expected ActorRestartedEvent
-	MaxExceeded   int
-	StoppedEv     int // expected ActorStoppedEvent count for the pid
-	InitEv        int
-	StartEv       int
-	Pills         []*Pill
-	DLs           []DL
-	ProcFirstInc  map[int]int // process -> first incarnation
-	Deaths        []Death
-	gateReached   bool
-	SpawnExpBegin []int
-	SpawnExpLen   []int // per Spawn: len(Exp) when it returned (lifecycle prefix)
+	Exp              []Exp
+	Restarted        []int // Restarts field of each expected ActorRestartedEvent
+	MaxExceeded      int
+	InternalRestarts int // restarts caused by an *actor.InternalError panic (not counted, not published)
+	StoppedEv        int // expected ActorStoppedEvent count for the pid
+	InitEv           int
+	StartEv          int
+	Pills            []*Pill
+	DLs              []DL
+	ProcFirstInc     map[int]int // process -> first incarnation
+	Deaths           []Death
+	gateReached      bool
+	SpawnExpBegin    []int
+	SpawnExpLen      []int // per Spawn: len(Exp) when it returned (lifecycle prefix)
 }
 
 // Death records how a process ended.
@@ -290,7 +293,12 @@ func (s *Sim) step() {
 					s.cur = append(s.cur, item{pill: s.draining})
 					s.draining = nil
 				}
-				if !s.crash() {
+				if it.internal {
+					// tryRestart, *InternalError branch: the failed receiver is told Stopped and a fresh one is
+					// started; the restart counter, the budget and the event stream are not involved
+					s.exp("Stopped", nil)
+					s.InternalRestarts++
+				} else if !s.crash() {
 					return
 				}
 				s.start()
@@ -322,7 +330,7 @@ func (s *Sim) Send(op Op) {
 		n = 1
 	}
 	for k := 0; k < n; k++ {
-		it := item{id: op.ID + k, panics: op.Panic && n == 1, gateNext: op.GateNext && n == 1, from: op.From}
+		it := item{id: op.ID + k, panics: op.Panic && n == 1, internal: op.Internal && op.Panic && n == 1, gateNext: op.GateNext && n == 1, from: op.From}
 		if !s.Alive {
 			s.DLs = append(s.DLs, DL{ID: it.id, From: it.from})
 			continue
